@@ -64,6 +64,9 @@ def lines_for(rng, b, g, p):
         L.append("fnext %s %d %d" % (base, k, rng.choice([0, 1, -1, 10, rng.randint(-100, 100)])))
     elif r < 0.7:
         L.append("dnext %s %d %d" % (base, rng.randint(-3, 12), rng.choice([0, 1, -1, rng.randint(-20, 20)])))
+    elif r < 0.85:
+        # every remaining getter of the limit and of its k-th decade / yearly fortune
+        L.append("limit.more %s %d" % (base, rng.choice([0, 1, 2, 9, -1, rng.randint(-30, 60)])))
     return L
 
 
@@ -222,7 +225,7 @@ PROP = {
     "audit_files": ["Tyme/Model/ChildLimit.lean", "Tyme/Lemmas/ChildLimit.lean", "Tyme/Spec/ChildLimit.lean", "Tyme/Findings/C16.lean"],
     "gen": [gen_eph],
     "streams": [],
-    "ops": c16_ops,
+    "ops": with_extra(c16_ops, eq_kinds=(14, 15, 16)),
     "extra_checks": [c16_jie, c16_grid, c16_d22_retag],
     "exhaustive": False,
     "rule": "ops: seeded random births 0002..9990 (+ month/year ends, leap days, Jul-Nov 1582, 1571..1582, range edges, reform years) x gender x the four "
